@@ -124,11 +124,27 @@ fn kinematic_sweeps(e: &mut Eng) {
 
 fn setters(e: &mut Eng, sts: &[State]) {
     let checked = cfg!(feature = "dimcheck");
-    for s in sts.iter().step_by(5) {
+    // the grid states, plus states with every pattern of zero components (at rest but accelerating,
+    // moving without acceleration, ...): a setter asked for the value a component already has must
+    // still zero the higher derivatives
+    let mut all: Vec<State> = sts.iter().step_by(5).cloned().collect();
+    let ngrid = all.len();
+    for &p in &[0.0f32, 2.5] {
+        for &v in &[0.0f32, -1.5] {
+            for &a in &[0.0f32, 4.0] {
+                all.push(State::new_raw(p, v, a));
+            }
+        }
+    }
+    for (si, s) in all.iter().enumerate() {
+      // arguments: a fixed value for the grid states; for the zero-pattern states also each current
+      // component and both zeros (argument equal to what is already there)
+      let args: Vec<f32> = if si < ngrid { vec![7.5] } else { vec![7.5, s.position, s.velocity, s.acceleration, 0.0, -0.0] };
+      for &arg in &args {
         for m in -3..=3i8 {
             for sx in -3..=3i8 {
                 let u = Unit::new(m, sx);
-                let qv = Quantity::new(7.5, u);
+                let qv = Quantity::new(arg, u);
                 for which in 0..3 {
                     e.executions += 1;
                     e.states += 1;
@@ -146,9 +162,9 @@ fn setters(e: &mut Eng, sts: &[State]) {
                     };
                     let want = if right {
                         match which {
-                            0 => State::new_raw(7.5, 0.0, 0.0),
-                            1 => State::new_raw(s.position, 7.5, 0.0),
-                            _ => State::new_raw(s.position, s.velocity, 7.5),
+                            0 => State::new_raw(arg, 0.0, 0.0),
+                            1 => State::new_raw(s.position, arg, 0.0),
+                            _ => State::new_raw(s.position, s.velocity, arg),
                         }
                     } else {
                         *s
@@ -156,7 +172,7 @@ fn setters(e: &mut Eng, sts: &[State]) {
                     let name = ["set_constant_position", "set_constant_velocity", "set_constant_acceleration"][which];
                     if r.is_ok() != right || bits(&st) != bits(&want) {
                         e.violation(&format!("state:{}:{}", name, if right { "accepted-case" } else { "rejected-case" }), 1, || {
-                            format!("{:?}.{}(7.5 with unit exponents ({},{})) returned {:?} and left {:?}; expected {} and {:?}", s, name, m, sx, r, st, if right { "Ok" } else { "Err" }, want)
+                            format!("{:?}.{}({:?} with unit exponents ({},{})) returned {:?} and left {:?}; expected {} and {:?}", s, name, arg, m, sx, r, st, if right { "Ok" } else { "Err" }, want)
                         });
                     }
                     e.outcome(h64(&(which, m, sx, bits(&st))));
@@ -165,15 +181,16 @@ fn setters(e: &mut Eng, sts: &[State]) {
         }
         // raw setters
         let mut a = *s;
-        a.set_constant_position_raw(3.0);
+        a.set_constant_position_raw(arg);
         let mut b = *s;
-        b.set_constant_velocity_raw(3.0);
+        b.set_constant_velocity_raw(arg);
         let mut c = *s;
-        c.set_constant_acceleration_raw(3.0);
+        c.set_constant_acceleration_raw(arg);
         e.checks += 1;
-        if bits(&a) != bits(&State::new_raw(3.0, 0.0, 0.0)) || bits(&b) != bits(&State::new_raw(s.position, 3.0, 0.0)) || bits(&c) != bits(&State::new_raw(s.position, s.velocity, 3.0)) {
-            e.violation("state:raw-setters", 1, || format!("{:?}: raw setters gave {:?} {:?} {:?}", s, a, b, c));
+        if bits(&a) != bits(&State::new_raw(arg, 0.0, 0.0)) || bits(&b) != bits(&State::new_raw(s.position, arg, 0.0)) || bits(&c) != bits(&State::new_raw(s.position, s.velocity, arg)) {
+            e.violation("state:raw-setters", 1, || format!("{:?}: raw setters with argument {:?} gave {:?} {:?} {:?}", s, arg, a, b, c));
         }
+      }
     }
 }
 
